@@ -287,7 +287,14 @@ func genHostileMID(r *core.Rand) string {
 	if r.Chance(0.08) {
 		return encodedForm(r, core.Choice(r, c12directed))
 	}
-	switch r.Pick(4, 5, 1, 1, 1) {
+	switch r.Pick(4, 5, 1, 1, 1, 2) {
+	case 5: // a run of multi-byte characters in front of (or behind) a traversal: byte and character counts differ
+		run := strings.Repeat(core.Choice(r, []string{"\u00e9", "\u00e5", "\u65e5", "\U0001f600", "\u017f"}), r.Range(1, 40))
+		tail := core.Choice(r, []string{"/../../victim", "/../../../victim", "/../../outside", "/../../mbox-evil/in/pwn", "/../../../etc/passwd", "/../../../../etc/new", "/../../x", "/../out/GOOD1", "\\..\\..\\victim", "/..", "/../.."})
+		if r.Chance(0.15) {
+			return "../../victim" + run
+		}
+		return run + tail
 	case 0:
 		return core.Choice(r, c12directed)
 	case 1:
